@@ -15,6 +15,7 @@ from nix_manipulator.expressions.trivia import (
     layout_from_gap,
     parse_delimited_sequence,
 )
+from nix_manipulator.expressions.layout import point_row
 
 
 @dataclass(slots=True, repr=False)
@@ -67,7 +68,7 @@ class Parenthesis(TypedExpression):
             """Allow inline comments only when they stay on the same line."""
             return (
                 prev is not None
-                and comment_node.start_point.row == prev.end_point.row
+                and point_row(comment_node.start_point) == point_row(prev.end_point)
                 and bool(items)
             )
 
